@@ -34,6 +34,17 @@ pub fn payload(id: i64, sz: i64, unit: usize) -> String {
     let head = format!("#{},{},", id, sz);
     let fill = (b'a' + (id.rem_euclid(26)) as u8) as char;
     let mut s = head;
+    if unit >= 10_000 {
+        // large units are filled with text that does not compress: an archive of a few of them is larger than any
+        // buffer a compressing roller keeps
+        let mut r = crate::rng::Rng::new(id.rem_euclid(1 << 20) as u64 * 977 + sz as u64);
+        const ALNUM: &[u8] = b"0123456789abcdefghijklmnopqrstuvwxyzABCDEFGHIJKLMNOPQRSTUVWXYZ+/";
+        while s.len() < total - 1 {
+            s.push(ALNUM[(r.next() % 64) as usize] as char);
+        }
+        s.push('\n');
+        return s;
+    }
     // every third record is filled with a two-byte character: bytes and characters differ
     let wide = id.rem_euclid(3) == 1;
     while s.len() < total - 1 {
@@ -219,12 +230,28 @@ impl Trigger for ScriptedTrigger {
 /// the size on disk.
 #[derive(Debug)]
 struct CheckedPolicy {
-    inner: CompoundPolicy,
+    inner: PolicyKind,
     bad: Arc<Mutex<Vec<(u64, u64)>>>,
     calls: Arc<Mutex<usize>>,
     /// bytes a failed encoder left in the appender's buffer (Rolling.tla writer.buf): a pre-processing policy is
     /// consulted before they are flushed
     buffered: Arc<std::sync::atomic::AtomicU64>,
+}
+/// the library's compound policy, or a policy of the harness's own that does what the compound policy does and looks
+/// at the size again between `roll()` and the roller: the file is still at its path with all its bytes then, and the
+/// size shown is still that size (Rolling.tla, BeginRoll)
+#[derive(Debug)]
+enum PolicyKind {
+    Compound(CompoundPolicy),
+    Own(Box<dyn Trigger>, Box<dyn Roll>),
+}
+impl PolicyKind {
+    fn is_pre_process(&self) -> bool {
+        match self {
+            PolicyKind::Compound(p) => p.is_pre_process(),
+            PolicyKind::Own(t, _) => t.is_pre_process(),
+        }
+    }
 }
 impl Policy for CheckedPolicy {
     fn process(&self, log: &mut LogFile) -> anyhow::Result<()> {
@@ -237,7 +264,21 @@ impl Policy for CheckedPolicy {
         if shown != real {
             self.bad.lock().unwrap().push((shown, real));
         }
-        self.inner.process(log)
+        match &self.inner {
+            PolicyKind::Compound(p) => p.process(log),
+            PolicyKind::Own(trigger, roller) => {
+                if trigger.trigger(log)? {
+                    log.roll();
+                    let shown = log.len_estimate();
+                    let real = fs::metadata(log.path()).map(|m| m.len()).unwrap_or(u64::MAX);
+                    if shown != real {
+                        self.bad.lock().unwrap().push((shown, real));
+                    }
+                    roller.roll(log.path())?;
+                }
+                Ok(())
+            }
+        }
     }
     fn is_pre_process(&self) -> bool {
         self.inner.is_pre_process()
@@ -634,7 +675,9 @@ pub fn replay_case(case: &Value, mat: Mat) -> Option<Value> {
                         Err(pn) => return fail(si, "appender build (from configuration) panicked", json!(pn)),
                     }
                 } else {
-                let policy = CheckedPolicy { inner: CompoundPolicy::new(trigger, roller), bad: bad_len.clone(), calls: policy_calls.clone(),
+                // (the materialisation with the active file on another filesystem uses the harness's own policy)
+                let kind = if mat.cross_mount { PolicyKind::Own(trigger, roller) } else { PolicyKind::Compound(CompoundPolicy::new(trigger, roller)) };
+                let policy = CheckedPolicy { inner: kind, bad: bad_len.clone(), calls: policy_calls.clone(),
                                              buffered: buffered.clone() };
                 let enc: Box<dyn Encode> = if mat.chunked {
                     Box::new(ChunkedEncoder)
@@ -840,6 +883,9 @@ pub fn main(args: &[String]) {
         Mat { unit: 14, gz: false, chunked: false, delete_roller: false, via_config: false, dir_pattern: false, cross_mount: true },
         // 600-byte units: one unit fits the BufWriter, a record of two goes to the file in one write call
         Mat { unit: 600, gz: false, chunked: false, delete_roller: true, via_config: false, dir_pattern: false, cross_mount: false },
+        // 40 000-byte units of text that does not compress, archived through gzip: a rolled file of two or three units
+        // is several times what the encoder buffers (every eighth history)
+        Mat { unit: 40_000, gz: true, chunked: false, delete_roller: false, via_config: false, dir_pattern: false, cross_mount: false },
     ];
     // histories in which the operating system cuts a write short need a process-wide file size limit: they run one
     // at a time after the others
@@ -850,6 +896,9 @@ pub fn main(args: &[String]) {
             return out;
         }
         for m in mats.iter() {
+            if m.unit >= 10_000 && i % 8 != 0 {
+                continue;
+            }
             if let Some(mm) = replay_case(c, *m) {
                 out.push(json!({"case": i, "params": c["params"], "mat": format!("{:?}", m), "mismatch": mm,
                                 "ops": c["ops"].as_array().unwrap().iter().map(|o| {
